@@ -1,0 +1,228 @@
+//go:build verif
+
+package fastaio
+
+//@ spec posOf(k int) int uninterpreted
+
+//@ # C12/C19/C01: re-ordering FASTA writer. For every arrival order (idx a permutation of 0..n-1, posOf its inverse)
+//@ # the output is ">ID\n", "SEQ\n" per record in idx order; every failed Write is reported on cerr.
+//@ func WriteAlignment
+//@   modifies w, cerr, cdone
+//@   requires forall(k, 0, len(recv(ch)), 0 <= posOf(k) && posOf(k) < len(recv(ch)) && recv(ch)[posOf(k)].Idx == k)
+//@   requires forall(a, 0, len(recv(ch)), 0 <= recv(ch)[a].Idx && recv(ch)[a].Idx < len(recv(ch)) && posOf(recv(ch)[a].Idx) == a)
+//@   loop 1:
+//@     invariant 0 <= counter && counter <= len(recv(ch)) && !in(outputMap, counter)
+//@     invariant forallint(k, in(outputMap, k) == (counter <= k && k < len(recv(ch)) && posOf(k) < range_i))
+//@     invariant forall(k, counter, len(recv(ch)), implies(posOf(k) < range_i, outputMap[k] == recv(ch)[posOf(k)]))
+//@     invariant forall(k, 0, counter, posOf(k) < range_i)
+//@     invariant implies(failed(w), len(sent(cerr)) >= 1) && len(sent(cdone)) == 0
+//@     invariant len(written(w)) == 2 * counter
+//@     invariant forall(k, 0, counter, written(w)[2*k] == ">" + recv(ch)[posOf(k)].ID + "\n" && written(w)[2*k+1] == recv(ch)[posOf(k)].Seq + "\n")
+//@   loop 2:
+//@     invariant 0 <= counter && counter <= len(recv(ch))
+//@     invariant forallint(k, in(outputMap, k) == (counter <= k && k < len(recv(ch)) && posOf(k) < range_i + 1))
+//@     invariant forall(k, counter, len(recv(ch)), implies(posOf(k) < range_i + 1, outputMap[k] == recv(ch)[posOf(k)]))
+//@     invariant forall(k, 0, counter, posOf(k) < range_i + 1)
+//@     invariant implies(failed(w), len(sent(cerr)) >= 1) && len(sent(cdone)) == 0
+//@     invariant len(written(w)) == 2 * counter
+//@     invariant forall(k, 0, counter, written(w)[2*k] == ">" + recv(ch)[posOf(k)].ID + "\n" && written(w)[2*k+1] == recv(ch)[posOf(k)].Seq + "\n")
+//@     decreases len(recv(ch)) - counter
+//@   ensures [c19.reported] implies(failed(w), len(sent(cerr)) >= 1)
+//@   ensures [c12.done] len(sent(cdone)) == 1
+//@   ensures [c12.order] len(written(w)) == 2 * len(recv(ch)) && forall(k, 0, len(recv(ch)), written(w)[2*k] == ">" + recv(ch)[posOf(k)].ID + "\n" && written(w)[2*k+1] == recv(ch)[posOf(k)].Seq + "\n")
+
+//@ # C15/C12/C19: wrapping writer. wrap >= 1 is established by the only caller (sam.ToMultiAlign: `if wrap > 0`).
+//@ # Order: the record whose header is written is the counter-th by idx (asserted at the header Write). Wrapping: every
+//@ # sequence line is the non-empty chunk Seq[written : min(written+wrap, len)] and written advances by wrap from 0 until
+//@ # it reaches the length, so the lines are the consecutive width-wrap chunks and their concatenation is Seq.
+//@ func WriteWrapAlignment
+//@   modifies w, cerr, cdone
+//@   requires wrap >= 1
+//@   requires forall(k, 0, len(recv(ch)), 0 <= posOf(k) && posOf(k) < len(recv(ch)) && recv(ch)[posOf(k)].Idx == k)
+//@   requires forall(a, 0, len(recv(ch)), 0 <= recv(ch)[a].Idx && recv(ch)[a].Idx < len(recv(ch)) && posOf(recv(ch)[a].Idx) == a)
+//@   ghost lines int = 0
+//@   loop 1:
+//@     invariant 0 <= counter && counter <= len(recv(ch)) && !in(outputMap, counter) && written == 0
+//@     invariant forallint(k, in(outputMap, k) == (counter <= k && k < len(recv(ch)) && posOf(k) < range_i))
+//@     invariant forall(k, counter, len(recv(ch)), implies(posOf(k) < range_i, outputMap[k] == recv(ch)[posOf(k)]))
+//@     invariant forall(k, 0, counter, posOf(k) < range_i)
+//@     invariant implies(failed(w), len(sent(cerr)) >= 1) && len(sent(cdone)) == 0
+//@   loop 2:
+//@     invariant 0 <= counter && counter <= len(recv(ch)) && written == 0
+//@     invariant forallint(k, in(outputMap, k) == (counter <= k && k < len(recv(ch)) && posOf(k) < range_i + 1))
+//@     invariant forall(k, counter, len(recv(ch)), implies(posOf(k) < range_i + 1, outputMap[k] == recv(ch)[posOf(k)]))
+//@     invariant forall(k, 0, counter, posOf(k) < range_i + 1)
+//@     invariant implies(failed(w), len(sent(cerr)) >= 1) && len(sent(cdone)) == 0
+//@     decreases len(recv(ch)) - counter
+//@   loop 3:
+//@     invariant 0 <= written && written == lines * wrap && lines >= 0
+//@     invariant implies(lines > 0, written - wrap < len(fastarecord.Seq))
+//@     invariant implies(failed(w), len(sent(cerr)) >= 1) && len(sent(cdone)) == 0
+//@     decreases len(fastarecord.Seq) - written
+//@   before call:Write#1: do lines = 0
+//@   before call:Write#1: assert [order] 0 <= counter && counter < len(recv(ch)) && fastarecord == recv(ch)[posOf(counter)]
+//@   after call:Write#1: assert [header] written(w)[len(written(w))-1] == ">" + fastarecord.ID + "\n"
+//@   after call:Write#2: assert [lastchunk] written < len(fastarecord.Seq) && written + wrap >= len(fastarecord.Seq) && written(w)[len(written(w))-1] == fastarecord.Seq[written:] + "\n"
+//@   after call:Write#2: do lines++
+//@   after call:Write#3: assert [chunk] written + wrap < len(fastarecord.Seq) && written(w)[len(written(w))-1] == fastarecord.Seq[written:written+wrap] + "\n"
+//@   after call:Write#3: do lines++
+//@   ensures [c19.reported] implies(failed(w), len(sent(cerr)) >= 1)
+//@   ensures [c12.done] len(sent(cdone)) == 1
+
+//@ # C16 (no panic / strict / scoring) – safety sweep plus the scoring invariants.
+//@ # Ghost variables are the specification's state over the lines read so far: hdrs = header lines (non-blank lines
+//@ # starting with '>'); gLen/gScore/gA/gC/gG/gT = length, completeness score (12 / number of denoted bases per symbol,
+//@ # from spec/iupac.spec) and A/C/G/T counts of the sequence text since the last header.
+//@ func ReadEncodeScoreAlignment
+//@   modifies chnl, cErr, cDone
+//@   ghost hdrs int = 0
+//@   ghost gLen int = 0
+//@   ghost gScore int = 0
+//@   ghost gA int = 0
+//@   ghost gC int = 0
+//@   ghost gG int = 0
+//@   ghost gT int = 0
+//@   ghost gWidth int = 0
+//@   loop 1:
+//@     invariant len(sent(cErr)) == 0 && len(sent(cDone)) == 0
+//@     invariant hdrs >= 0 && first == (hdrs == 0) && counter == ite(hdrs == 0, 0, hdrs - 1) && len(sent(chnl)) == counter
+//@     invariant implies(hdrs == 0, gLen == 0)
+//@     invariant len(seqBuffer) == gLen && score == gScore && counting[136] == gA && counting[40] == gC && counting[72] == gG && counting[24] == gT
+//@     invariant implies(counter > 0, width == gWidth)
+//@     invariant forall(j, 0, len(seqBuffer), isCode(seqBuffer[j]))
+//@     invariant forall(t, 0, counter, sent(chnl)[t].Idx == t && len(sent(chnl)[t].Seq) == gWidth)
+//@   loop 3:
+//@     invariant len(sent(cErr)) == 0 && len(sent(cDone)) == 0 && len(sent(chnl)) == counter
+//@     invariant len(seqBuffer) + i == gLen && score == gScore && counting[136] == gA && counting[40] == gC && counting[72] == gG && counting[24] == gT
+//@     invariant len(encodedLine) == len(line) && forall(j, 0, i, isCode(encodedLine[j]))
+//@     do-end gLen++; gScore += specScore(line[i], hardGaps); if upper(line[i]) == 'A' { gA++ }; if upper(line[i]) == 'C' { gC++ }; if upper(line[i]) == 'G' { gG++ }; if upper(line[i]) == 'T' { gT++ }
+//@   after call:Bytes#1: do if len(line) > 0 && line[0] == '>' { hdrs++ }
+//@   before send#4: assert [record] fr.Idx == hdrs - 2 && len(fr.Seq) == gLen && fr.Score == gScore && fr.Count_A == gA && fr.Count_C == gC && fr.Count_G == gG && fr.Count_T == gT && forall(j, 0, len(fr.Seq), isCode(fr.Seq[j]))
+//@   after send#4: do if hdrs == 2 { gWidth = gLen }; gLen = 0; gScore = 0; gA = 0; gC = 0; gG = 0; gT = 0
+//@   before send#8: assert [lastrecord] fr.Idx == hdrs - 1 && len(fr.Seq) == gLen && fr.Score == gScore && fr.Count_A == gA && fr.Count_C == gC && fr.Count_G == gG && fr.Count_T == gT && forall(j, 0, len(fr.Seq), isCode(fr.Seq[j]))
+//@   ensures [c18.exclusive] len(sent(cErr)) + len(sent(cDone)) == 1
+//@   ensures [local.strict.count] implies(len(sent(cErr)) == 0, len(sent(chnl)) == hdrs && hdrs >= 1)
+//@   ensures [idx] forall(t, 0, len(sent(chnl)), sent(chnl)[t].Idx == t)
+//@ # the same specification state machine (hdrs, gLen, gWidth) is the contract of every reader, so they agree with one
+//@ # another: record k has Idx k, its Seq is the table image of the sequence text (per line: encodedLine[j] ==
+//@ # coding[line[j]] != 0) of length gLen, all records have the first record's width, one record per header, exactly one
+//@ # of {error, done}.
+//@ func ReadEncodeAlignment
+//@   modifies chnl, cErr, cDone
+//@   ghost hdrs int = 0
+//@   ghost gLen int = 0
+//@   ghost gWidth int = 0
+//@   loop 1:
+//@     invariant len(sent(cErr)) == 0 && len(sent(cDone)) == 0
+//@     invariant hdrs >= 0 && first == (hdrs == 0) && counter == ite(hdrs == 0, 0, hdrs - 1) && len(sent(chnl)) == counter
+//@     invariant len(seqBuffer) == gLen && implies(counter > 0, width == gWidth) && implies(hdrs == 0, gLen == 0)
+//@     invariant forall(j, 0, len(seqBuffer), isCode(seqBuffer[j]))
+//@     invariant forall(t, 0, counter, sent(chnl)[t].Idx == t && len(sent(chnl)[t].Seq) == gWidth)
+//@   loop 2:
+//@     invariant len(sent(cErr)) == 0 && len(sent(cDone)) == 0 && len(sent(chnl)) == counter
+//@     invariant len(seqBuffer) + i == gLen && len(encodedLine) == len(line)
+//@     invariant forall(j, 0, i, isCode(encodedLine[j]) && encodedLine[j] == coding[line[j]])
+//@     do-end gLen++
+//@   after call:Bytes#1: do if len(line) > 0 && line[0] == '>' { hdrs++ }
+//@   before send#4: assert [record] fr.Idx == hdrs - 2 && len(fr.Seq) == gLen && forall(j, 0, len(fr.Seq), isCode(fr.Seq[j]))
+//@   after send#4: do if hdrs == 2 { gWidth = gLen }; gLen = 0
+//@   before send#8: assert [lastrecord.idx] fr.Idx == hdrs - 1
+//@   before send#8: assert [lastrecord.len] len(fr.Seq) == gLen
+//@   before send#8: assert [lastrecord.codes] forall(j, 0, len(fr.Seq), isCode(fr.Seq[j]))
+//@   ensures [c18.exclusive] len(sent(cErr)) + len(sent(cDone)) == 1
+//@   ensures [local.strict.count] implies(len(sent(cErr)) == 0, len(sent(chnl)) == hdrs && hdrs >= 1)
+//@   ensures [idx] forall(t, 0, len(sent(chnl)), sent(chnl)[t].Idx == t)
+
+//@ func ReadEncodeAlignmentToList
+//@   ghost hdrs int = 0
+//@   ghost gLen int = 0
+//@   ghost gWidth int = 0
+//@   loop 1:
+//@     invariant hdrs >= 0 && first == (hdrs == 0) && counter == ite(hdrs == 0, 0, hdrs - 1) && len(records) == counter
+//@     invariant len(seqBuffer) == gLen && implies(counter > 0, width == gWidth) && implies(hdrs == 0, gLen == 0)
+//@     invariant forall(j, 0, len(seqBuffer), isCode(seqBuffer[j]))
+//@     invariant forall(t, 0, counter, records[t].Idx == t && len(records[t].Seq) == gWidth && records[t].Count_A == 0 && records[t].Count_C == 0 && records[t].Count_G == 0 && records[t].Count_T == 0)
+//@   loop 2:
+//@     invariant len(records) == counter
+//@     invariant len(seqBuffer) + i == gLen && len(encodedLine) == len(line)
+//@     invariant forall(j, 0, i, isCode(encodedLine[j]) && encodedLine[j] == coding[line[j]])
+//@     do-end gLen++
+//@   after call:Bytes#1: do if len(line) > 0 && line[0] == '>' { hdrs++ }
+//@   before append#1: assert [record] fr.Idx == hdrs - 2 && len(fr.Seq) == gLen && forall(j, 0, len(fr.Seq), isCode(fr.Seq[j]))
+//@   after append#1: do if hdrs == 2 { gWidth = gLen }; gLen = 0
+//@   before append#3: assert [lastrecord] fr.Idx == hdrs - 1 && len(fr.Seq) == gLen && forall(j, 0, len(fr.Seq), isCode(fr.Seq[j]))
+//@   ensures [local.strict.count] implies(result2 == nil, len(result1) == hdrs && hdrs >= 1)
+//@   ensures [nonempty] implies(result2 == nil, len(result1) >= 1)
+//@   ensures [idx] implies(result2 == nil, forall(t, 0, len(result1), result1[t].Idx == t && result1[t].Count_A == 0 && result1[t].Count_C == 0 && result1[t].Count_G == 0 && result1[t].Count_T == 0))
+//@   ensures [error.empty] implies(result2 != nil, len(result1) == 0)
+
+//@ func ReadAlignment
+//@   modifies chnl, cErr, cdone
+//@   ghost hdrs int = 0
+//@   ghost gLen int = 0
+//@   ghost gWidth int = 0
+//@   ghost gSeq string = ""
+//@   loop 1:
+//@     invariant len(sent(cErr)) == 0 && len(sent(cdone)) == 0
+//@     invariant hdrs >= 0 && first == (hdrs == 0) && counter == ite(hdrs == 0, 0, hdrs - 1) && len(sent(chnl)) == counter
+//@     invariant len(seqBuffer) == gLen && implies(counter > 0, width == gWidth) && implies(hdrs == 0, gLen == 0) && seqBuffer == gSeq
+//@     invariant forall(t, 0, counter, sent(chnl)[t].Idx == t && len(sent(chnl)[t].Seq) == gWidth)
+//@   after call:Text#1: do if len(line) > 0 && line[0] == '>' { hdrs++ } else { if hdrs > 0 && len(line) > 0 { gLen += len(line); gSeq = gSeq + strupper(line) } }
+//@   before send#4: assert [record] fr.Idx == hdrs - 2 && len(fr.Seq) == gLen && fr.Seq == gSeq
+//@   after send#4: do if hdrs == 2 { gWidth = gLen }; gLen = 0; gSeq = ""
+//@   before send#7: assert [lastrecord] fr.Idx == hdrs - 1 && len(fr.Seq) == gLen && fr.Seq == gSeq
+//@   ensures [c18.exclusive] len(sent(cErr)) + len(sent(cdone)) == 1
+//@   ensures [local.strict.count] implies(len(sent(cErr)) == 0, len(sent(chnl)) == hdrs && hdrs >= 1)
+//@   ensures [idx] forall(t, 0, len(sent(chnl)), sent(chnl)[t].Idx == t)
+
+//@ func getAlignmentDims
+//@   ghost hdrs int = 0
+//@   ghost gLen int = 0
+//@   loop 1:
+//@     invariant n == hdrs && l == gLen && hdrs >= 0
+//@   after call:Text#1: do if len(line) > 0 && line[0] == '>' { hdrs++ } else { if hdrs == 1 { gLen += len(line) } }
+//@   ensures [local.dims] implies(result3 == nil, result1 == hdrs && result2 == gLen)
+
+//@ # C17/C16: record-level conversions
+//@ func FastaRecord.Encode
+//@   requires forall(j, 0, len(FR.Seq), FR.Seq[j] < 128)
+//@   loop 1:
+//@     invariant len(seq) == len(FR.Seq) && forall(j, 0, range_i, seq[j] == EA[FR.Seq[j]])
+//@   ensures result.ID == FR.ID && result.Description == FR.Description && result.Idx == FR.Idx && len(result.Seq) == len(FR.Seq)
+//@   ensures forall(j, 0, len(FR.Seq), result.Seq[j] == encoding.MakeEncodingArray()[FR.Seq[j]])
+
+//@ func FastaRecord.Complement
+//@   loop 1:
+//@     invariant 0 <= i && i <= len(FR.Seq) && len(ba) == len(FR.Seq) && forall(j, 0, i, ba[j] == CA[FR.Seq[j]])
+//@   ensures result.ID == FR.ID && result.Description == FR.Description && result.Idx == FR.Idx && len(result.Seq) == len(FR.Seq)
+//@   ensures forall(j, 0, len(FR.Seq), result.Seq[j] == alphabet.MakeCompArray()[FR.Seq[j]])
+
+//@ func FastaRecord.ReverseComplement
+//@   loop 1:
+//@     invariant 0 <= i && i + j == len(FR.Seq) - 1 && len(temp) == len(FR.Seq)
+//@     invariant forall(k, 0, i, temp[k] == alphabet.MakeCompArray()[FR.Seq[len(FR.Seq)-1-k]])
+//@     invariant forall(k, j+1, len(FR.Seq), temp[k] == alphabet.MakeCompArray()[FR.Seq[len(FR.Seq)-1-k]])
+//@     invariant forall(k, i, j+1, temp[k] == alphabet.MakeCompArray()[FR.Seq[k]])
+//@   ensures result.ID == FR.ID && result.Idx == FR.Idx && len(result.Seq) == len(FR.Seq)
+//@   ensures forall(k, 0, len(FR.Seq), result.Seq[k] == alphabet.MakeCompArray()[FR.Seq[len(FR.Seq)-1-k]])
+
+//@ func EncodedFastaRecord.Complement
+//@   loop 1:
+//@     invariant 0 <= i && i <= len(EFR.Seq) && len(NFR.Seq) == len(EFR.Seq) && freshslice(NFR.Seq) && forall(j, 0, i, NFR.Seq[j] == CA[EFR.Seq[j]])
+//@     invariant NFR.ID == EFR.ID && NFR.Description == EFR.Description && NFR.Idx == EFR.Idx
+//@   ensures result.ID == EFR.ID && result.Description == EFR.Description && result.Idx == EFR.Idx && len(result.Seq) == len(EFR.Seq) && freshslice(result.Seq)
+//@   ensures forall(j, 0, len(EFR.Seq), result.Seq[j] == alphabet.MakeEncodedCompArray()[EFR.Seq[j]])
+
+//@ func EncodedFastaRecord.ReverseComplement
+//@   loop 1:
+//@     invariant 0 <= i && i + j == len(EFR.Seq) - 1 && len(NEFR.Seq) == len(EFR.Seq) && freshslice(NEFR.Seq)
+//@     invariant forall(k, 0, i, NEFR.Seq[k] == alphabet.MakeEncodedCompArray()[EFR.Seq[len(EFR.Seq)-1-k]])
+//@     invariant forall(k, j+1, len(EFR.Seq), NEFR.Seq[k] == alphabet.MakeEncodedCompArray()[EFR.Seq[len(EFR.Seq)-1-k]])
+//@     invariant forall(k, i, j+1, NEFR.Seq[k] == alphabet.MakeEncodedCompArray()[EFR.Seq[k]])
+//@   ensures len(result.Seq) == len(EFR.Seq) && forall(k, 0, len(EFR.Seq), result.Seq[k] == alphabet.MakeEncodedCompArray()[EFR.Seq[len(EFR.Seq)-1-k]])
+
+//@ func EncodedFastaRecord.CalculateBaseContent
+//@   ghost gA int = 0
+//@   loop 1:
+//@     invariant counting[136] == count(k, 0, range_i, EFR.Seq[k] == 136) && counting[24] == count(k, 0, range_i, EFR.Seq[k] == 24) && counting[72] == count(k, 0, range_i, EFR.Seq[k] == 72) && counting[40] == count(k, 0, range_i, EFR.Seq[k] == 40)
+//@   ensures EFR.Count_A == count(k, 0, len(EFR.Seq), EFR.Seq[k] == 136) && EFR.Count_T == count(k, 0, len(EFR.Seq), EFR.Seq[k] == 24) && EFR.Count_G == count(k, 0, len(EFR.Seq), EFR.Seq[k] == 72) && EFR.Count_C == count(k, 0, len(EFR.Seq), EFR.Seq[k] == 40)
